@@ -524,7 +524,7 @@ verif_commit_done:;
     // the backtracking is the common part of the response and the challenge
     // the degree of the backtring is the scalar tmp computed above such that quat_resp is in tmp *
     // O0 we assume that the length of the backtracking is smaller than 60;
-    backtracking = two_adic_valuation(ibz_get(&tmp));
+    backtracking = ibz_two_adic(&tmp);
     assert(backtracking < SQIsign2D_backtracking_bound);
     ibz_pow(&tmp, &ibz_const_two, backtracking);
     ibz_div(&lattice_content, &remain, &lattice_content, &tmp);
@@ -542,7 +542,7 @@ verif_commit_done:;
     // computing the diadic valuation
     // right now we make the overwhelmingly likely assumption that the diadic valuation of
     // degree_full_resp is smaller than 60
-    exp_diadic_val_full_resp = two_adic_valuation(ibz_get(&degree_full_resp));
+    exp_diadic_val_full_resp = ibz_two_adic(&degree_full_resp);
     assert(exp_diadic_val_full_resp < 60);
 #ifdef SQISIGN_SQISIGN2D_WEST_AC24_VERIF
     /* H1: the response that was sampled does not meet the steering: give up with the hook-only
